@@ -434,7 +434,7 @@ def make_case(seed, silent=False, ranked=False, negx=False, globx=False, oddx=Fa
         from annet.vendors import registry_connector
         pfx = registry_connector.get()[vname].reverse
         a, b = nrng.sample(range(len(gens)), 2)
-        word, key = nrng.choice(["lldp", "stp", "nd"]), nrng.choice(KEYS)
+        word, key = nrng.choice(["lldp", "stp", "nd", "ntp-x", "dhcp", "ospf", "dns", "undoable"]), nrng.choice(KEYS)  # (first letters from the negation words: character stripping instead of word stripping shows there)
         row = "%s %s %s" % (pfx, word, key)
         gens[a]["program"].append(["y", row])
         gens[a]["paths"] = [list(x_) for x_ in ref_paths(gens[a]["program"])]
